@@ -25,7 +25,7 @@ func init() {
 		Level: "exploration",
 		Rule: "bounded-exhaustive enumeration with a reference folder-transfer client on the real transfer path: all directory trees with up to 4 (thorough 5) entries, depth <= 2, names {a, 'b c', .dot, sub, .hid} / {x, .y, in}, file sizes {0,1,5}; " +
 			"download: every per-file action vector over {send, resume@0, resume@1, resume@size, skip}; upload into an empty target, a target holding a complete copy of one file, a target holding a partial copy; upload then download; " +
-			"folder upload cut at every byte of the client's stream and retried; distinct = distinct (tree shape, action vector class, observation)",
+			"folder upload cut at every byte of the client's stream (also inside a resumed item) and retried; folders holding files with stored information / resource forks; distinct = distinct (tree shape, action vector class, observation)",
 		Assumptions: []string{"which entries below a hidden folder count as items is not settled by the property: for such trees only 'announced count = headers sent' is checked", "roots have visible names; no symlinks"},
 		Run:            runC10,
 		Replay:         replayC10,
